@@ -123,6 +123,7 @@ def parseOp (s : S) (line : String) : Option (Op Rat) :=
   | ["slice", t, i, j] => do some (.slice (← parseRef t) (← i.toNat?) (← j.toNat?))
   | ["item", t, i] => do some (.item (← parseRef t) (← i.toNat?))
   | ["setsx", t, i, x] => do some (.setSetX (← parseRef t) (← i.toNat?) (← parseNum x))
+  | ["setsxall", t, xs] => do some (.setSetXAll (← parseRef t) (← (splitComma xs).mapM parseNum))
   | ["reset", a, p] => do some (.reset (← parseRef a) (← p.toNat?))
   | ["reduce", t, order] => do
     some (.reduce (← parseRef t) (← (splitComma (if order == "-" then "" else order)).mapM (·.toNat?)))
